@@ -48,7 +48,7 @@ Definition fsstate := option dirst.
 
 (* one backend operation by contender [c]; [ng] = next generation number; [age] = logical age (ms) of the time stamp a
    Stat of this step presents (an input of the schedule) *)
-Definition sem (c ng : nat) (age : nat) (fs : fsstate) (o : op) : fsstate * res :=
+Definition sem0 (c ng : nat) (age : nat) (fs : fsstate) (o : op) : fsstate * res :=
   match o, fs with
   | OMkdir, None => (Some {| gen := ng; owner := c; hbf := false |}, ROk)
   | OMkdir, Some _ => (fs, RExist)
@@ -80,6 +80,19 @@ Definition sem (c ng : nat) (age : nat) (fs : fsstate) (o : op) : fsstate * res 
   | OChtimes PDir, Some _ => (fs, ROk)
   | OChtimes PHb, Some d => if hbf d then (fs, ROk) else (fs, RNotExist)
   | OChtimes PHb, None => (fs, RNotExist)
+  end.
+
+(* A backend FAULT injected by the schedule on a READ-side operation (Stat, Lstat, Open, Readdirnames): the operation is
+   not executed and reports an error — something other than "does not exist" (EACCES, EPERM, EIO), or the lie "does not
+   exist".  Mutating operations are never faulted. *)
+Inductive fault := FNone | FErr | FGone.
+Definition is_read (o : op) : bool :=
+  match o with OStat _ | OLstat _ | OOpen _ | OReaddir _ _ | OReaddirF _ => true | _ => false end.
+Definition sem (c ng : nat) (age : nat) (fl : fault) (fs : fsstate) (o : op) : fsstate * res :=
+  match fl with
+  | FNone => sem0 c ng age fs o
+  | FErr => if is_read o then (fs, ROther) else sem0 c ng age fs o
+  | FGone => if is_read o then (fs, RNotExist) else sem0 c ng age fs o
   end.
 
 (* ---------- programs ---------- *)
@@ -358,8 +371,10 @@ Record obs := { o_op : opc; o_res : resc; o_ret : option ares }.
 (* ---------- items of a schedule ---------- *)
 Inductive item :=
 | ICall (c : nat) (a : api)                 (* contender c starts an API call *)
-| IStep (c : nat) (hb : option nat) (age : nat)      (* one backend operation of c's API thread / k-th heartbeat writer;
-                                                        age = logical age (ms) of the time stamp if it is a Stat *)
+| IStep (c : nat) (hb : option nat) (age : nat) (fl : fault)
+                                            (* one backend operation of c's API thread / k-th heartbeat writer;
+                                               age = logical age (ms) of the time stamp if it is a Stat;
+                                               fl = fault injected if it is a read-side operation of the API thread *)
 | IKill (c : nat)                           (* contender c dies while holding (its heartbeat stops) *)
 | IDeadline (c : nat).                      (* the deadline of c's LockWithTimeout call fires (at any point of the call) *)
 
@@ -433,12 +448,12 @@ Definition exec (s : state) (it : item) : option (state * option obs) :=
           end
       | None => None
       end
-  | IStep c None age =>
+  | IStep c None age fl =>
       match nth_error (cs s) c with
       | Some x =>
           match cur x with
           | Some (a, Do o k) =>
-              let '(fs', r) := sem c (ngen s) age (fs s) o in
+              let '(fs', r) := sem c (ngen s) age fl (fs s) o in
               let created := match o, r with OMkdir, ROk => true | _, _ => false end in
               let removed := match o, r with ORemove PDir, ROk => true | _, _ => false end in
               let bad' := bad s || (removed && live_owner (fs s) (cs s)) in
@@ -452,7 +467,7 @@ Definition exec (s : state) (it : item) : option (state * option obs) :=
           end
       | None => None
       end
-  | IStep c (Some k) age =>
+  | IStep c (Some k) age _ =>
       match nth_error (cs s) c with
       | Some x =>
           if negb (alive x) then None else
@@ -461,14 +476,14 @@ Definition exec (s : state) (it : item) : option (state * option obs) :=
               match pc h with
               | HbDone => None
               | HbOpen =>
-                  let '(fs', r) := sem c (ngen s) age (fs s) OOpenHb in
+                  let '(fs', r) := sem c (ngen s) age FNone (fs s) OOpenHb in
                   Some ({| fs := fs'; ngen := ngen s; bad := bad s; ce := ce s; lob := lob s;
                            cs := set_nth (cs s) c {| ovr := ovr x; cur := cur x; holds := holds x; alive := alive x; eng := eng x;
                                                      hbs := set_nth (hbs x) k {| pc := (match r with ROk => HbCht | _ => if hb_stops_on_write_error F then HbDone else HbCht end);
                                                                                  born := born h |}; gh := gh x |} |},
                         Some {| o_op := COpenFile; o_res := resc_of r; o_ret := None |})
               | HbCht =>
-                  let '(fs', r) := sem c (ngen s) age (fs s) (OChtimes PHb) in
+                  let '(fs', r) := sem c (ngen s) age FNone (fs s) (OChtimes PHb) in
                   Some ({| fs := fs'; ngen := ngen s; bad := bad s; ce := ce s; lob := lob s;
                            cs := set_nth (cs s) c {| ovr := ovr x; cur := cur x; holds := holds x; alive := alive x; eng := eng x;
                                                      hbs := set_nth (hbs x) k {| pc := if hb_cancelled s c h then HbDone else HbOpen; born := born h |};
@@ -552,7 +567,8 @@ Inductive entry :=
 | C_ (c a : nat)                         (* call: a = 0 TryLock, 1 Lock, 2 LockWithTimeout, 3 Unlock *)
 | K_ (c : nat)                           (* kill *)
 | D_ (c : nat)                           (* the deadline of c's LockWithTimeout fires *)
-| S_ (c hb st o r t : nat).              (* step: hb = 0 API thread, k+1 heartbeat writer k; st = logical age in ms (capped);
+| S_ (c hb st fl o r t : nat).           (* step: hb = 0 API thread, k+1 heartbeat writer k; st = logical age in ms (capped);
+                                            fl = injected fault (0 none, 1 error, 2 "does not exist");
                                             o, r, t = observed operation, result class, return kind (0 = no return) *)
 
 Definition api_of (n : nat) : api := match n with 0 => TryLock | 1 => Lock | 2 => LockWT | _ => Unlock end.
@@ -575,11 +591,11 @@ Definition item_of (e : entry) : item :=
   | C_ c a => ICall c (api_of a)
   | K_ c => IKill c
   | D_ c => IDeadline c
-  | S_ c hb st _ _ _ => IStep c (match hb with 0 => None | S k => Some k end) st
+  | S_ c hb st fl _ _ _ => IStep c (match hb with 0 => None | S k => Some k end) st (match fl with 0 => FNone | 1 => FErr | _ => FGone end)
   end.
 Definition obs_of (e : entry) : option obs :=
   match e with
-  | S_ _ _ _ o r t => ob (opc_dec o) (resc_dec r) (ret_dec t)
+  | S_ _ _ _ _ o r t => ob (opc_dec o) (resc_dec r) (ret_dec t)
   | _ => None
   end.
 
@@ -594,7 +610,7 @@ Fixpoint respects_oracle (s : state) (its : list item) : bool :=
   match its with
   | [] => true
   | it :: r =>
-      (match it with IStep _ None a => implb (canon a) (negb (live_owner (fs s) (cs s))) | _ => true end) &&
+      (match it with IStep _ None a _ => implb (canon a) (negb (live_owner (fs s) (cs s))) | _ => true end) &&
       match exec s it with Some (s', _) => respects_oracle s' r | None => false end
   end.
 
@@ -621,7 +637,7 @@ Fixpoint others_closed (l : list cst) (c : nat) : bool :=
 
 Definition allowedb (judge : state -> bool) (s : state) (it : item) : bool :=
   match it with
-  | IStep c None age =>
+  | IStep c None age _ =>
       implb (canon age) (judge s) &&
       match nth_error (cs s) c with
       | Some x => implb (at_mkdir x && match fs s with None => true | Some _ => false end) (others_closed (cs s) c)
